@@ -11,7 +11,7 @@ RULE = ("multi-epoch fan-out histories (publish / unpublish cycles with changing
 ASSUMPTIONS = ["HLS segment finalisation and TS audio flush at teardown are decided in C10 / C06 (hls.Muxer, Rtmp2MpegtsRemuxer)",
                "removal of empty groups, idle-input disposal and goroutine/descriptor baselines are ServerManager / runtime behaviour: "
                "measured by the C03 harness where possible, not part of this model (partial)",
-               "the stream hook (OnMsg count, OnStop exactly once per input) is checked by the oracle on the implementation only; it is not in the Coq model"]
+               "the stream hook is a modelled consumer: which message every OnMsg carried and the OnStop count per input are compared model == implementation"]
 FULL_OUTPUT = True
 
 
@@ -89,6 +89,10 @@ def gen_cases(tier, rng):
         cfg["mw"] = rng.choice([0, 0, 1, 8192])
         if k % 3 == 0:
             cfg["push"] = 1
+        trec = k % 4 == 1
+        if trec:
+            # MPEG-TS recording: see the harness - fewer than 16 messages per input, never audio and video together
+            cfg["trec"] = 1
         h = fanout.Hist(rng, cfg)
         live = []
         epochs = rng.choice([2, 2, 3, 4])
@@ -103,8 +107,10 @@ def gen_cases(tier, rng):
                 h.sdp()
             if rng.random() < 0.4:
                 h.describe()
-            seq = list(fanout.STREAMS[rng.choice(names)])
+            seq = list(fanout.STREAMS[rng.choice(names if not trec else ["video", "audio", "g711", "ehevc"])])
             cut = rng.randrange(0, len(seq) + 1)
+            if trec and rng.random() < 0.5:
+                h.pat()
             for kind in seq[:cut]:
                 a = rng.random()
                 if a < 0.2:
@@ -112,28 +118,40 @@ def gen_cases(tier, rng):
                 elif a < 0.3 and live:
                     h.leave(live.pop(rng.randrange(len(live))))
                 h.pub(kind)
-                if rng.random() < 0.3:
+                if rng.random() < (0.6 if trec else 0.3):
                     h.ts(rng.random() < 0.4)
+                if trec and rng.random() < 0.1:
+                    h.pat()
             if rng.random() < 0.15:
                 h.stop()       # a second stop of the same input must be a no-op
             quick = cfg.get("push") and rng.random() < 0.5 and e + 1 < epochs
             was_quick = bool(quick)
+            if e + 1 == epochs and k % 3 == 1:
+                break            # server shutdown while this input is attached (Group.Dispose below)
             if quick:
                 h.stop_quick()   # the next input follows at once; then a tick
             else:
                 h.stop()
+            if trec and rng.random() < 0.4:
+                h.ts(True)       # TS data handed over while no input is attached: recorded nowhere
+            if rng.random() < 0.2:
+                h.pub(rng.choice(["aac", "inter"]))   # a frame handed over after the input was removed: no hook, no recording, nothing cached
             if rng.random() < 0.5:
                 h.describe()
             if rng.random() < 0.3:
                 live.append(h.join(rng.choice(kinds)))
-        if cfg.get("push"):
+        if cfg.get("push") and k % 3 != 1:
             h.tick()
-        yield Case(h.line(), cls="%d-epochs%s" % (epochs, "-push" if cfg.get("push") else ""))
+        if k % 3 == 1 or k % 7 == 0:
+            h.dispose()      # with the last input still attached (k % 3 == 1) or after it has ended
+        yield Case(h.line(), cls="%d-epochs%s%s" % (epochs, "-push" if cfg.get("push") else "", "-dispose" if h.ev[-1] == "X" else ""))
+    # RTSP subscribers across publish / unpublish cycles (DESCRIBE before, during and after inputs; late RTP packets)
+    yield from fanout.gen_rtsp_histories(tier, rng, multi_epoch=True)
 
 
 def split_impl(c, out):
-    """the hook is observed on the implementation only"""
-    return "|".join(p for p in out.split("|") if not p.startswith(("hook=", "popen="))) or "-"
+    """popen= (relay-push sessions still open at the end) is observed on the implementation only"""
+    return "|".join(p for p in out.split("|") if not p.startswith("popen=")) or "-"
 
 
 def nontrivial(c, out):
@@ -157,7 +175,7 @@ def oracle(c, out):
             epoch += 1
             in_epoch = True
             spans.append([pos, len(evs)])
-        elif e[0] in ("O", "Oq") and in_epoch:
+        elif e[0] in ("O", "Oq", "X") and in_epoch:
             in_epoch = False
             spans[-1][1] = pos
         elif e[0] == "P":
@@ -181,17 +199,43 @@ def oracle(c, out):
     for ep in range(nep):
         if recs[ep][:1] != ["F"] or recs[ep][1:] != ["t%d" % i for i in per_epoch[ep]]:
             return (False, "recording of input %d is not header + exactly its messages: %s" % (ep, recs[ep][:16]))
+    # server shutdown: every session the group held is disposed
+    if evs and evs[-1][0] == "X":
+        lv = obs.get("live")
+        if lv != [[]]:
+            return (False, "after Group.Dispose() these sessions are still open: %s" % (lv,))
+    # MPEG-TS recording: one file per input, holding exactly the PAT/PMT and TS blobs of that input, in order
+    if cfg.get("trec"):
+        trecs = obs.get("trec", [])
+        if nep and len(trecs) != nep:
+            return (False, "%d TS recordings for %d inputs" % (len(trecs), nep))
+        na = nt = 0
+        want = [[] for _ in range(nep)]
+        for pos, e in enumerate(evs):
+            if e[0] in ("A", "T"):
+                lab = ("a%d" % na) if e[0] == "A" else ("s%d" % nt)
+                if e[0] == "A":
+                    na += 1
+                else:
+                    nt += 1
+                for ep, sp in enumerate(spans):
+                    if sp[0] < pos < sp[1]:
+                        want[ep].append(lab)
+        for ep in range(nep):
+            if trecs[ep] != want[ep]:
+                return (False, "TS recording of input %d holds %s, handed to the group during it: %s" % (ep, trecs[ep][:16], want[ep][:16]))
     # stream hook: every non-empty message of the input, exactly one stop
     hk = obs.get("hook")
     if hk is not None and nep:
         if len(hk) != nep:
             return (False, "hook created %d times for %d inputs" % (len(hk), nep))
         for ep in range(nep):
-            n, stops = hk[ep][0].split(":")
+            told, stops = ",".join(hk[ep]).split(":")
             if int(stops) != 1:
                 return (False, "hook of input %d told to stop %s times" % (ep, stops))
-            if int(n) != len(per_epoch[ep]):
-                return (False, "hook of input %d saw %s messages, %d published" % (ep, n, len(per_epoch[ep])))
+            told = [] if told == "-" else told.split(",")
+            if told != [str(i) for i in per_epoch[ep]]:
+                return (False, "hook of input %d was told messages %s, published (non-empty) during it: %s" % (ep, told[:16], per_epoch[ep][:16]))
     # push: one session per input, closed with the input, holding only that input's messages
     for cid, k in kinds.items():
         if k == "p":
@@ -206,25 +250,10 @@ def oracle(c, out):
     po = obs.get("popen")
     if po is not None and po != [["0"]]:
         return (False, "%s relay-push session(s) still open at the target after the last input ended" % po[0][0])
-    # a DESCRIBE is answered with the SDP of the CURRENT input only
-    for cid, pos in describes.items():
-        got = obs.get(cid, [[]])[0]
-        cur = None
-        for ep, sp in enumerate(spans):
-            if sp[0] < pos < sp[1]:
-                cur = ep
-        want = None
-        for kk, sd in enumerate(sdps):
-            if sd["pos"] < pos and sd["epoch"] is not None and sd["epoch"] == cur:
-                want = kk
-        if cur is None:
-            # no input attached: whatever was announced before the last input ended must be gone
-            last_end = max([sp[1] for sp in spans if sp[1] < pos], default=-1)
-            late = [kk for kk, sd in enumerate(sdps) if last_end < sd["pos"] < pos]
-            want = late[-1] if late else None
-        exp = [] if want is None else ["d%d" % want]
-        if got != exp:
-            return (False, "DESCRIBE %s answered with %s, the current input's SDP is %s" % (cid, got, exp))
+    # RTSP subscribers: a DESCRIBE is answered with the SDP of the CURRENT input only (never one of an input that has ended)
+    r = fanout.check_rtsp(cfg, evs, obs)
+    if r:
+        return (False, "[%s] %s" % r)
     # clean restart: a consumer that joined during or after input e never receives anything of an earlier input
     for cid, k in kinds.items():
         if k in ("p", "t") or obs.get(cid) == [["!"]]:
